@@ -270,6 +270,19 @@ func c14Bodies() []c14Body {
 		{"list tools cursor", "listtools", `{"tools":[],"nextCursor":"c"}`, false},
 		{"list prompts", "listprompts", `{"prompts":[{"name":"p","arguments":[{"name":"a","required":true}]}]}`, false},
 		{"list resources", "listresources", `{"resources":[{"name":"r","uri":"u","size":3}]}`, false},
+		// results that are not objects: null (what a handler returning (nil, nil) makes some servers send), other JSON types
+		{"prompt result null", "prompt", `null`, false},
+		{"resource result null", "resource", `null`, false},
+		{"tool result null", "tool", `null`, false},
+		{"list tools result null", "listtools", `null`, false},
+		{"list prompts result null", "listprompts", `null`, false},
+		{"list resources result null", "listresources", `null`, false},
+		{"prompt result empty object", "prompt", `{}`, false},
+		{"prompt result array", "prompt", `[]`, false},
+		{"prompt result string", "prompt", `"s"`, false},
+		{"prompt result false", "prompt", `false`, false},
+		{"prompt result zero", "prompt", `0`, false},
+		{"tool error null", "tool", `null`, true},
 	}
 }
 
